@@ -16,6 +16,10 @@ type Lit struct {
 	S     *Sym
 	Truth bool
 	If    *ssa.If
+	// Derived: the literal was not tested on this path itself; it is implied by the tested
+	// result of a library function (see resultFacts). Rules that enumerate the conditions a
+	// statement depends on ignore derived literals (the tested result is the condition).
+	Derived bool
 }
 
 func (l Lit) String() string {
@@ -109,6 +113,9 @@ func (m *Model) Facts(f *ssa.Function, spec map[string]bool) (map[*ssa.BasicBloc
 					}
 				}
 				out[l.String()] = l
+				for _, rl := range m.resultFacts(l) {
+					out[rl.String()] = rl
+				}
 			}
 			if in[s] == nil {
 				in[s] = out
@@ -657,71 +664,32 @@ func selectCaseOf(l Lit) (*ssa.Select, int, bool) {
 // edgeDemotesAndExits: from successor #succ of b every path reaches a may-demote call before
 // any Return and before the next blocking select (the next tick of a loop).
 func (m *Model) edgeDemotesAndExits(b *ssa.BasicBlock, succ int) bool {
-	hasDemote := func(x *ssa.BasicBlock) bool {
-		for _, in := range x.Instrs {
-			if call, ok := in.(*ssa.Call); ok {
-				if g := call.Call.StaticCallee(); g != nil && m.isLib(g) && m.mayDemote(g, specFor(call, g), 0) {
-					return true
-				}
-			}
-		}
-		return false
-	}
-	// some demote must be reachable at all
-	if reachAvoid(b, succ, func(in ssa.Instruction) bool {
+	isDemote := func(in ssa.Instruction) bool {
 		call, ok := in.(*ssa.Call)
 		if !ok {
 			return false
 		}
 		g := call.Call.StaticCallee()
 		return g != nil && m.isLib(g) && m.mayDemote(g, specFor(call, g), 0)
-	}, nil) == nil {
-		return false
 	}
-	escape := reachAvoid(b, succ, func(in ssa.Instruction) bool {
-		if _, isRet := in.(*ssa.Return); isRet {
-			return true
+	ok, ends := true, 0
+	m.explore(b, succ, 0, func(in ssa.Instruction, flag int) (int, bool) {
+		if isDemote(in) {
+			return 1, false
 		}
-		if s, ok := in.(*ssa.Select); ok && s.Blocking {
-			return true
+		if s, isSel := in.(*ssa.Select); isSel && s.Blocking {
+			// the next tick: before a demotion (escaped) or after it (the loop goes on)
+			ok = false
+			return flag, true
 		}
-		return false
-	}, hasDemote)
-	if escape != nil {
-		return false
-	}
-	// after the demotion the function must return without another tick
-	ok := true
-	seen := map[*ssa.BasicBlock]bool{}
-	var walk func(x *ssa.BasicBlock, demoted bool)
-	walk = func(x *ssa.BasicBlock, demoted bool) {
-		key := x
-		if seen[key] && !demoted {
-			return
+		return flag, false
+	}, func(last ssa.Instruction, flag int) {
+		ends++
+		if flag == 0 {
+			ok = false // returned without a demotion
 		}
-		if demoted {
-			if seen[key] {
-				return
-			}
-		}
-		seen[key] = true
-		d := demoted
-		for _, in := range x.Instrs {
-			if call, isCall := in.(*ssa.Call); isCall {
-				if g := call.Call.StaticCallee(); g != nil && m.isLib(g) && m.mayDemote(g, specFor(call, g), 0) {
-					d = true
-				}
-			}
-			if s, isSel := in.(*ssa.Select); isSel && s.Blocking && d {
-				ok = false
-			}
-		}
-		for _, sx := range x.Succs {
-			walk(sx, d)
-		}
-	}
-	walk(b.Succs[succ], false)
-	return ok
+	})
+	return ok && ends > 0
 }
 
 // liveBlocks returns the blocks of f that can execute (see deadBlocks).
@@ -734,4 +702,418 @@ func liveBlocks(f *ssa.Function) []*ssa.BasicBlock {
 		}
 	}
 	return out
+}
+
+
+// resultFacts: what a branch on the result of a library function implies about that function's
+// execution. If l compares the result of a static call of a library function h with a constant
+// (or is a boolean result itself), the returns of h that are consistent with l are collected;
+// the literals that hold at all of them (with h's parameters replaced by the arguments) and the
+// event "a may-demote call was passed on every path to them" hold at the branch too.
+// This keeps guard-based rules indifferent to extracting a piece of a function into a helper
+// that reports the outcome through its result.
+func (m *Model) resultFacts(l Lit) []Lit {
+	paths, ok := m.resultPaths(l)
+	if !ok || len(paths) == 0 {
+		return nil
+	}
+	var out []Lit
+	for k, x := range paths[0] {
+		inAll := true
+		for _, p := range paths[1:] {
+			if _, ok := p[k]; !ok {
+				inAll = false
+			}
+		}
+		if inAll {
+			out = append(out, x)
+		}
+	}
+	sort.Slice(out, func(i, j int) bool { return out[i].String() < out[j].String() })
+	return out
+}
+
+// resultPaths: for a literal that tests the result of a static call of a library function, the
+// facts of each return path of that function consistent with the test (keyed by their text):
+// the literals holding at the return, with the callee's parameters replaced by the arguments and
+// marked Derived, plus the event "passed-may-demote" if every path to that return passes a
+// may-demote call. ok is false if l is not such a test (or the callee is being analysed already).
+func (m *Model) resultPaths(l Lit) ([]map[string]Lit, bool) {
+	call, idx, want, neg, ok := m.resultTest(l)
+	if !ok {
+		return nil, false
+	}
+	h := call.Call.StaticCallee()
+	if h == nil || !m.isLib(h) || h.Blocks == nil || m.rfOnStack[h] {
+		return nil, false
+	}
+	key := fmt.Sprintf("%p|%d|%s|%v", call, idx, want, neg)
+	if m.rfOnStack == nil {
+		m.rfOnStack = map[*ssa.Function]bool{}
+		m.rpMemo = map[string][]map[string]Lit{}
+	}
+	if r, ok := m.rpMemo[key]; ok {
+		return r, true
+	}
+	m.rfOnStack[h] = true
+	defer delete(m.rfOnStack, h)
+
+	sub := map[string]*Sym{}
+	for i, p := range h.Params {
+		if i < len(call.Call.Args) {
+			sub["param:"+p.Name()] = m.Sym.Of(call.Call.Args[i])
+		}
+	}
+	consistent := func(v ssa.Value) bool {
+		k, isC := v.(*ssa.Const)
+		if !isC {
+			return true
+		}
+		return (constString(k) == want) != neg
+	}
+	hasDemote := func(x *ssa.BasicBlock) bool {
+		for _, in := range x.Instrs {
+			if c2, ok := in.(*ssa.Call); ok {
+				if g := c2.Call.StaticCallee(); g != nil && m.isLib(g) && m.mayDemote(g, specFor(c2, g), 0) {
+					return true
+				}
+			}
+		}
+		return false
+	}
+	passesDemote := func(b *ssa.BasicBlock) bool {
+		if hasDemote(b) {
+			return true
+		}
+		return !cutReach(b, func(pred *ssa.BasicBlock, succ int) bool { return hasDemote(pred) })
+	}
+	export := func(lits []Lit, demote bool) map[string]Lit {
+		out := map[string]Lit{}
+		for _, x := range lits {
+			if x.S.Op == "event" {
+				x.Derived = true
+				out[x.String()] = x
+				continue
+			}
+			ns := substSym(x.S, sub)
+			if symMentions(ns, "param:") && ns == x.S {
+				continue // a parameter of the callee that cannot be expressed in the caller
+			}
+			nl := Lit{S: ns, Truth: x.Truth, If: x.If, Derived: true}
+			out[nl.String()] = nl
+		}
+		if demote {
+			e := Lit{S: &Sym{Op: "event", Name: "passed-may-demote"}, Truth: true, Derived: true}
+			out[e.String()] = e
+		}
+		return out
+	}
+	var paths []map[string]Lit
+	_, live := m.Facts(h, nil)
+	for _, b := range h.Blocks {
+		if !live[b] || b == h.Recover {
+			continue
+		}
+		ret, isRet := b.Instrs[len(b.Instrs)-1].(*ssa.Return)
+		if !isRet || idx >= len(ret.Results) {
+			continue
+		}
+		v := returnValue(ret, idx)
+		if phi, isPhi := v.(*ssa.Phi); isPhi && phi.Block() == b {
+			for i, e := range phi.Edges {
+				if !consistent(e) {
+					continue
+				}
+				pred := b.Preds[i]
+				si := 0
+				for j, sx := range pred.Succs {
+					if sx == b {
+						si = j
+					}
+				}
+				if deadEdge(pred, si) || !live[pred] {
+					continue
+				}
+				paths = append(paths, export(m.EdgeLits(pred, si), passesDemote(pred) || hasDemote(b)))
+			}
+			continue
+		}
+		if !consistent(v) {
+			continue
+		}
+		if len(b.Preds) > 1 && !hasDemote(b) {
+			// one path per incoming edge: a return shared by several conditions (a || b) keeps
+			// the condition of each
+			for _, pred := range b.Preds {
+				for si, sx := range pred.Succs {
+					if sx == b && !deadEdge(pred, si) && live[pred] {
+						paths = append(paths, export(m.EdgeLits(pred, si), passesDemote(pred)))
+					}
+				}
+			}
+			continue
+		}
+		paths = append(paths, export(m.Guards(b), passesDemote(b)))
+	}
+	m.rpMemo[key] = paths
+	return paths, true
+}
+
+// resultTest recognises a literal over the result of a static call: the boolean result itself,
+// result == constant, or the same over one component of a tuple result.
+func (m *Model) resultTest(l Lit) (call *ssa.Call, idx int, want string, neg bool, ok bool) {
+	asCall := func(s *Sym) (*ssa.Call, int, bool) {
+		if s == nil || s.V == nil {
+			return nil, 0, false
+		}
+		v := s.V
+		for {
+			switch x := v.(type) {
+			case *ssa.Convert:
+				v = x.X
+				continue
+			case *ssa.ChangeType:
+				v = x.X
+				continue
+			}
+			break
+		}
+		if ex, isEx := v.(*ssa.Extract); isEx {
+			if c, isCall := ex.Tuple.(*ssa.Call); isCall && c.Call.StaticCallee() != nil {
+				return c, ex.Index, true
+			}
+			return nil, 0, false
+		}
+		if c, isCall := v.(*ssa.Call); isCall && c.Call.StaticCallee() != nil {
+			return c, 0, true
+		}
+		return nil, 0, false
+	}
+	if c, i, isCall := asCall(l.S); isCall {
+		if b, isBasic := l.S.V.Type().Underlying().(*types.Basic); isBasic && b.Info()&types.IsBoolean != 0 {
+			return c, i, "true", !l.Truth, true
+		}
+	}
+	if l.S.Op == "bin" && l.S.Name == "==" && len(l.S.Args) == 2 {
+		for i := 0; i < 2; i++ {
+			if c, ix, isCall := asCall(l.S.Args[i]); isCall && l.S.Args[1-i].Op == "const" {
+				return c, ix, l.S.Args[1-i].Name, !l.Truth, true
+			}
+		}
+	}
+	return nil, 0, "", false, false
+}
+
+// hasEvent: the guards contain the event pseudo-literal.
+func hasEvent(gs []Lit, name string) bool {
+	for _, l := range gs {
+		if l.S.Op == "event" && l.S.Name == name {
+			return true
+		}
+	}
+	return false
+}
+
+// ---- path exploration that follows a helper's return into its only caller ------------------
+
+// explore walks every path from successor #succ of block b. step is called for each
+// instruction with the path's flag and returns the new flag and whether the path ends there.
+// At a Return of a function that has exactly one call site in the library (a plain call, not go
+// or defer) the walk continues after that call in the caller, remembering the constant results
+// that were returned; branches of the caller that test those results are followed only along
+// the edge consistent with them. Where a path cannot be continued (a Return of an entry point,
+// a panic) atEnd is called with the last instruction. Extracting a part of a loop body into a
+// function that reports its outcome through its result therefore leaves the explored paths unchanged.
+func (m *Model) explore(b *ssa.BasicBlock, succ int, flag int, step func(in ssa.Instruction, flag int) (int, bool), atEnd func(last ssa.Instruction, flag int)) {
+	m.exploreImpl(b, succ, nil, flag, step, atEnd)
+}
+
+func (m *Model) exploreImpl(b *ssa.BasicBlock, succ int, startAt ssa.Instruction, flag int, step func(in ssa.Instruction, flag int) (int, bool), atEnd func(last ssa.Instruction, flag int)) {
+	if startAt == nil && deadEdge(b, succ) {
+		return
+	}
+	type binding map[*ssa.Call][]string
+	bindKey := func(bd binding) string {
+		var ks []string
+		for c, v := range bd {
+			ks = append(ks, fmt.Sprintf("%p=%v", c, v))
+		}
+		sort.Strings(ks)
+		return strings.Join(ks, ",")
+	}
+	seen := map[string]bool{}
+	var walk func(x *ssa.BasicBlock, from int, flag int, bd binding, depth int)
+	walk = func(x *ssa.BasicBlock, from int, flag int, bd binding, depth int) {
+		if from == 0 {
+			k := fmt.Sprintf("%p|%d|%s", x, flag, bindKey(bd))
+			if seen[k] {
+				return
+			}
+			seen[k] = true
+		}
+		for i := from; i < len(x.Instrs); i++ {
+			in := x.Instrs[i]
+			var stop bool
+			flag, stop = step(in, flag)
+			if stop {
+				return
+			}
+			switch t := in.(type) {
+			case *ssa.Return:
+				f := x.Parent()
+				sites := m.callers[f]
+				if f.Parent() == nil && len(sites) == 1 && !sites[0].IsGo && !sites[0].IsDef && depth < 6 {
+					if call, ok := sites[0].Instr.(*ssa.Call); ok {
+						nb := binding{}
+						for k, v := range bd {
+							nb[k] = v
+						}
+						vals := make([]string, len(t.Results))
+						for j := range t.Results {
+							if k, isC := returnValue(t, j).(*ssa.Const); isC {
+								vals[j] = constString(k)
+							}
+						}
+						nb[call] = vals
+						walk(call.Block(), instrIndex(call)+1, flag, nb, depth+1)
+						return
+					}
+				}
+				if atEnd != nil {
+					atEnd(in, flag)
+				}
+				return
+			case *ssa.Panic:
+				return
+			}
+		}
+		for i, s := range x.Succs {
+			if deadEdge(x, i) {
+				continue
+			}
+			if ifi, ok := x.Instrs[len(x.Instrs)-1].(*ssa.If); ok && len(x.Succs) == 2 && len(bd) > 0 {
+				l := m.litOf(ifi.Cond, i == 0, ifi)
+				if call, idx, want, neg, ok := m.resultTest(l); ok {
+					if vals, bound := bd[call]; bound && idx < len(vals) && vals[idx] != "" {
+						if (vals[idx] == want) == neg {
+							continue // this edge contradicts the returned constant
+						}
+					}
+				}
+			}
+			walk(s, 0, flag, bd, depth)
+		}
+	}
+	if startAt != nil {
+		walk(startAt.Block(), instrIndex(startAt), flag, nil, 0)
+		return
+	}
+	walk(b.Succs[succ], 0, flag, nil, 0)
+}
+
+// exploreFrom is explore starting at (and including) an instruction.
+func (m *Model) exploreFrom(start ssa.Instruction, flag int, step func(in ssa.Instruction, flag int) (int, bool), atEnd func(last ssa.Instruction, flag int)) {
+	m.exploreImpl(nil, 0, start, flag, step, atEnd)
+}
+
+// returnLeadsToDemotion: the Return ends a function with a single call site, and in the caller
+// every path that continues from this return (with the returned constants) passes a may-demote call.
+func (m *Model) returnLeadsToDemotion(ret *ssa.Return) bool {
+	f := ret.Parent()
+	if sites := m.callers[f]; f.Parent() != nil || len(sites) != 1 || sites[0].IsGo || sites[0].IsDef {
+		return false
+	}
+	ok, ends := true, 0
+	m.exploreFrom(ret, 0, func(in ssa.Instruction, flag int) (int, bool) {
+		if call, isCall := in.(*ssa.Call); isCall {
+			if g := call.Call.StaticCallee(); g != nil && m.isLib(g) && m.mayDemote(g, specFor(call, g), 0) {
+				ends++
+				return 1, true
+			}
+		}
+		return flag, false
+	}, func(last ssa.Instruction, flag int) {
+		ends++
+		ok = false
+	})
+	return ok && ends > 0
+}
+
+// loopCallees: f and the library functions with exactly one call site that are called (plain
+// calls) from f or from such functions: the code that makes up f's body after extract-function
+// refactorings.
+func (m *Model) bodyFns(f *ssa.Function) []*ssa.Function {
+	out := []*ssa.Function{f}
+	seen := map[*ssa.Function]bool{f: true}
+	for i := 0; i < len(out); i++ {
+		eachInstr(out[i], func(in ssa.Instruction) {
+			call, ok := in.(*ssa.Call)
+			if !ok {
+				return
+			}
+			g := call.Call.StaticCallee()
+			if g == nil || !m.isLib(g) || seen[g] || g.Blocks == nil || g.Parent() != nil {
+				return
+			}
+			if sites := m.callers[g]; len(sites) == 1 && !sites[0].IsGo && !sites[0].IsDef {
+				seen[g] = true
+				out = append(out, g)
+			}
+		})
+	}
+	return out
+}
+
+
+// liftTo returns the instruction of root that stands for `in`: in itself if it is in root, else
+// the call in root through which the (single-call-site) function containing `in` is reached.
+func (m *Model) liftTo(root *ssa.Function, in ssa.Instruction) ssa.Instruction {
+	for i := 0; i < 8 && in != nil; i++ {
+		f := in.Parent()
+		if f == root {
+			return in
+		}
+		if f.Parent() != nil {
+			return nil
+		}
+		sites := m.callers[f]
+		if len(sites) != 1 || sites[0].IsGo || sites[0].IsDef {
+			return nil
+		}
+		in = sites[0].Instr
+	}
+	return nil
+}
+
+// dominatesLifted: a dominates b, where both are in root or in single-call-site functions
+// called from it. Inside one function this is plain dominance; across functions the
+// instructions are lifted to the lowest function that contains both.
+func (m *Model) dominatesLifted(root *ssa.Function, a, b ssa.Instruction) bool {
+	if a.Parent() == b.Parent() {
+		return dominatesInstr(a, b)
+	}
+	// lift b into a's function, or a into b's function, or both into root
+	if lb := m.liftTo(a.Parent(), b); lb != nil {
+		return dominatesInstr(a, lb)
+	}
+	if la := m.liftTo(b.Parent(), a); la != nil {
+		// a lies inside a call that precedes b: everything in that call happened if the call
+		// dominates b and a dominates every return of its function
+		return la != b && dominatesInstr(la, b) && m.dominatesReturns(a)
+	}
+	la, lb := m.liftTo(root, a), m.liftTo(root, b)
+	return la != nil && lb != nil && la != lb && dominatesInstr(la, lb) && m.dominatesReturns(a)
+}
+
+// dominatesReturns: the instruction is on every path from its function's entry to a Return.
+func (m *Model) dominatesReturns(a ssa.Instruction) bool {
+	f := a.Parent()
+	for _, b := range liveBlocks(f) {
+		if ret, ok := b.Instrs[len(b.Instrs)-1].(*ssa.Return); ok && b != f.Recover {
+			if !dominatesInstr(a, ret) {
+				return false
+			}
+		}
+	}
+	return true
 }
